@@ -304,6 +304,77 @@ print(json.dumps(call(sys.argv[2])))
                 out["bad"].append({"operator": "differentiating a value of a user subclass (%s)" % k, "fault": "after earlier calls on %s" % hist,
                                    "problems": ["fresh interpreter: %s ; after the history: %s" % (fresh[k][:300], got[:300])], "site": {"oracle": "operator-history"}})
                 break
+    # ---- rule-level histories: the same primitive differentiated with the same shapes but other options (axis, norm,
+    #      lengths, subscripts) earlier in the process - in one order, in the reverse order, and each configuration alone in
+    #      a fresh interpreter: every configuration gives the same gradient in all three ----
+    RULEPROG = r"""
+import sys, json, warnings
+warnings.simplefilter("ignore")
+import numpy as onp, autograd.numpy as anp
+from autograd import grad, make_jvp
+rs = onp.random.RandomState(3)
+xc = rs.randn(5, 5) + 1j * rs.randn(5, 5)
+xr = rs.randn(6, 6)
+w85, w58, w66, w64, w46 = rs.randn(8, 5), rs.randn(5, 8), rs.randn(6, 6), rs.randn(6, 4), rs.randn(4, 6)
+C = {
+ "irfft axis=0": lambda: grad(lambda x: anp.sum(w85 * anp.fft.irfft(x, axis=0)))(xc),
+ "irfft axis=-1": lambda: grad(lambda x: anp.sum(w58 * anp.fft.irfft(x, axis=-1)))(xc),
+ "irfft axis=0 norm=ortho": lambda: grad(lambda x: anp.sum(w85 * anp.fft.irfft(x, axis=0, norm="ortho")))(xc),
+ "rfft axis=0": lambda: grad(lambda x: anp.sum(w46 * anp.real(anp.fft.rfft(x, axis=0))))(xr),
+ "rfft axis=1": lambda: grad(lambda x: anp.sum(w64 * anp.real(anp.fft.rfft(x, axis=1))))(xr),
+ "rfft2 axes=(0,1)": lambda: grad(lambda x: anp.sum(w64 * anp.imag(anp.fft.rfft2(x, axes=(0, 1)))))(xr),
+ "rfft2 axes=(1,0)": lambda: grad(lambda x: anp.sum(w46 * anp.imag(anp.fft.rfft2(x, axes=(1, 0)))))(xr),
+ "fft axis=0": lambda: grad(lambda x: anp.sum(w66 * anp.real(anp.fft.fft(x, axis=0))))(xr),
+ "fft axis=1": lambda: grad(lambda x: anp.sum(w66 * anp.real(anp.fft.fft(x, axis=1))))(xr),
+ "cumsum axis=0": lambda: grad(lambda x: anp.sum(w66 * anp.cumsum(x, axis=0)))(xr),
+ "cumsum axis=1": lambda: grad(lambda x: anp.sum(w66 * anp.cumsum(x, axis=1)))(xr),
+ "sort axis=0": lambda: grad(lambda x: anp.sum(w66 * anp.sort(x, axis=0)))(xr),
+ "sort axis=1": lambda: grad(lambda x: anp.sum(w66 * anp.sort(x, axis=1)))(xr),
+ "norm axis=0": lambda: grad(lambda x: anp.sum(w66[0] * anp.linalg.norm(x, axis=0)))(xr),
+ "norm axis=1": lambda: grad(lambda x: anp.sum(w66[0] * anp.linalg.norm(x, axis=1)))(xr),
+ "repeat axis=0": lambda: grad(lambda x: anp.sum(anp.repeat(x, 2, axis=0)[::2] * w66))(xr),
+ "repeat axis=1": lambda: grad(lambda x: anp.sum(anp.repeat(x, 2, axis=1)[:, ::2] * w66))(xr),
+ "einsum ij,jk": lambda: grad(lambda x: anp.sum(anp.einsum("ij,jk->ik", x, w66)))(xr),
+ "einsum ij,kj": lambda: grad(lambda x: anp.sum(anp.einsum("ij,kj->ik", x, w66)))(xr),
+ "tensordot axes=1": lambda: grad(lambda x: anp.sum(anp.tensordot(x, w66, 1)))(xr),
+ "tensordot axes=([0],[0])": lambda: grad(lambda x: anp.sum(anp.tensordot(x, w66, ([0], [0])) * w66))(xr),
+ "max axis=0 (fwd)": lambda: make_jvp(lambda x: anp.max(x, axis=0))(xr)(w66)[1],
+ "max axis=1 (fwd)": lambda: make_jvp(lambda x: anp.max(x, axis=1))(xr)(w66)[1],
+ "pad mode=constant": lambda: grad(lambda x: anp.sum(anp.pad(x, 1, mode="constant")[1:-1, 1:-1] * w66))(xr),
+ "roll axis=0": lambda: grad(lambda x: anp.sum(anp.roll(x, 1, axis=0) * w66))(xr),
+ "roll axis=1": lambda: grad(lambda x: anp.sum(anp.roll(x, 1, axis=1) * w66))(xr),
+}
+names = sys.argv[1].split("|")
+res = {}
+for n_ in names:
+    try:
+        r = onp.asarray(C[n_]())
+        res[n_] = [str(r.dtype), list(r.shape), [repr(complex(t)) for t in r.ravel()]]
+    except Exception as e:
+        res[n_] = "raised " + type(e).__name__
+print(json.dumps(res))
+"""
+    import re as _re
+    rule_names = _re.findall(r'^ "([^"]+)": lambda', RULEPROG, _re.M)
+
+    def runrules(names):
+        r = subprocess.run([sys.executable, "-c", RULEPROG, "|".join(names)], capture_output=True, text=True, timeout=300)
+        try:
+            return json.loads(r.stdout.strip().splitlines()[-1])
+        except Exception:
+            return {"process": "failed: " + r.stderr[-300:]}
+    fwd_order, rev_order = runrules(rule_names), runrules(list(reversed(rule_names)))
+    alone = {n_: runrules([n_]).get(n_) for n_ in rule_names[:: (1 if cfg.get("tier") == "thorough" else 3)]}
+    out["n"] += len(rule_names)
+    for n_ in rule_names:
+        out["keys"].append("rule-history|" + n_)
+        variants = {"in listed order": fwd_order.get(n_), "in reverse order": rev_order.get(n_)}
+        if n_ in alone:
+            variants["alone in a fresh interpreter"] = alone[n_]
+        vals = list(variants.values())
+        if any(v != vals[0] for v in vals[1:]) or vals[0] is None:
+            out["bad"].append({"operator": "gradient of %s" % n_, "fault": "other configurations of the same primitive differentiated earlier in the process",
+                               "problems": ["%s: %s" % (k_, str(v_)[:160]) for k_, v_ in variants.items()], "site": {"oracle": "operator-history"}})
     # ---- short-lived function objects: an operator applied to a function that is garbage-collected right away, many
     #      times over, with functions of other signatures in between (object ids are reused): every answer is the one a
     #      fresh interpreter gives ----
